@@ -27,3 +27,6 @@ let run id ops out =
       end) ops
   end else run_generic desc id ops out
 let registered = Registry.register "Lague1" run
+let coq_layer (l : ague1) = Printf.sprintf "(mkA1 %s %s)" (coq_z l.a1_proto) (coq_zlist l.a1_data)
+let registered_coq = Registry.register_coq "Lague1" ("From GP Require Import Base LagueModel Lague1Model.\n",
+  Lsmallutil.to_coq_generic { Lsmallutil.cd = desc; coq_layer; g_dec = "a1_decode_into"; g_fresh = "a1_fresh"; g_ser = "a1_serialize"; g_rp = "a1_render_panics" })
